@@ -33,7 +33,8 @@ CLAIMED = {
         'writer returns and reports exactly the elements in order and nesting, exactly the attributes that have a value with '
         'their exact values, exactly the text, and the writer\'s own line breaks and indentation as character data at the stated '
         'places (C20_document_roundtrip); with blank-only text dropped that is the document the program describes, nothing '
-        'added and nothing lost (C20_document_meaning; C20_comment_padding discharges the comment hypothesis from "no -->"); '
+        'added and nothing lost (C20_document_meaning; C20_comment_padding discharges the comment hypothesis from "no -->"), and two '
+        'programs that give the same bytes describe the same document (C20_lossless); '
         'a program that raises leaves the document of the program cut at the first raise, still accepted, every entered block '
         'closed (C20_document_roundtrip_abort). Tie: Model.C20.run_program = XMLWriter byte for byte on generated programs '
         '(valid, aborting, malformed push/pop); Model.C20D.xml_parse and expat read every document of the run alike (elements, '
